@@ -1,6 +1,7 @@
 """C13 -- disabled encodation modes are never used."""
 import enccommon
 import gen
+import corpus
 import refdec
 from enccommon import model_line, canon_impl, ints
 
@@ -26,6 +27,7 @@ def gen_cases(rng, tier, ctx):
     cs += [c for c in gen.boundary_cases(rng, tier, per_cap=2) ]
     cs += [c for c in gen.constant_cases(rng, tier) if c['cat'] != 'b256-length' or len(c['cfg']['data']) < 300]
     cs += gen.prefix_cases(rng, tier)
+    cs += [c for c in corpus.encoder_cases() if len(c['cfg']['data']) < 300]
     return cs
 
 
